@@ -48,6 +48,11 @@ def scenarios(ctx, thorough):
         scs.append(S.mk(sid, "after-rotation-" + w, "robust",
                         [P(90), {"a": "Rotate"}, S.call("c1", 11), {"a": "Answer", "tags": [11], "n": 600}, {"a": "Await", "c": "c1"},
                          {"a": "Push", "what": w}, {"a": "Settle"}, P(91), {"a": "Push", "what": w}, P(92), {"a": "Settle"}]))
+    # the session store fails while the server makes the client write to it (salt rotation, new session): a local fault
+    # is no reason for the process to die on a server message
+    sid += 1
+    scs.append(S.mk(sid, "failing-store", "robust", [P(90), {"a": "Rotate"}, P(91), {"a": "Push", "what": "new_session_newsalt"}, {"a": "Settle"}, P(92), {"a": "Settle"}],
+                    failstore=True))
     # a content-related message and, without waiting for its acknowledgement, the end of the connection
     for w in ("api_object", "update_short", "unsolicited_result"):
         sid += 1
